@@ -52,7 +52,8 @@ class _NpRandom:
         a = _np.asarray(a)
         n = len(a)
         self.calls.append(("choice", n, size, bool(replace),
-                           None if p is None else tuple(float(x) for x in p)))
+                           None if p is None else tuple(float(x) for x in p),
+                           tuple(int(x) for x in a.tolist()) if a.dtype.kind in "iu" else None))
         if p is not None:
             p = [float(x) for x in p]
             if len(p) != n:
@@ -95,8 +96,19 @@ class _NpRandom:
             out.append(a[pool.pop(q)])
         return _np.array(out, dtype=a.dtype)
 
+    def shuffle(self, x):
+        n = len(x)
+        self.calls.append(("shuffle", n))
+        if n <= 1:
+            return
+        idx = self.env.choose(math.factorial(n), "np.shuffle(%d)" % n)
+        vals = [x[i] for i in _perm_from_index(n, idx)]
+        for i, v in enumerate(vals):
+            x[i] = v
+
     def __getattr__(self, name):
-        raise HarnessError("RngEnv: numpy.random.%s is not modelled" % name)
+        raise HarnessError("RngEnv: numpy.random.%s is not modelled (only discrete draws "
+                           "with a finite outcome set can be enumerated)" % name)
 
 
 class NpShim:
@@ -121,10 +133,38 @@ class RandShim:
         for i, v in enumerate(vals):
             x[i] = v
 
+    def randint(self, a, b):
+        return a + self.env.choose(b - a + 1, "random.randint(%d,%d)" % (a, b))
+
+    def randrange(self, start, stop=None, step=1):
+        r = range(start, stop, step) if stop is not None else range(start)
+        if len(r) == 0:
+            raise ValueError("empty range for randrange()")
+        return r[self.env.choose(len(r), "random.randrange(%d)" % len(r))]
+
+    def choice(self, seq):
+        if len(seq) == 0:
+            raise IndexError("Cannot choose from an empty sequence")
+        return seq[self.env.choose(len(seq), "random.choice(%d)" % len(seq))]
+
+    def sample(self, population, k):
+        pop = list(population)
+        if k > len(pop) or k < 0:
+            raise ValueError("Sample larger than population or is negative")
+        total = math.perm(len(pop), k)
+        idx = self.env.choose(total, "random.sample(P(%d,%d))" % (len(pop), k)) if total > 1 else 0
+        out = []
+        for j in range(k):
+            f = math.perm(len(pop) - 1, k - j - 1)
+            q, idx = divmod(idx, f)
+            out.append(pop.pop(q))
+        return out
+
     def __getattr__(self, name):
-        if name in ("random", "randint", "choice", "sample", "uniform",
-                    "randrange", "choices", "seed"):
-            raise HarnessError("RngEnv: random.%s is not modelled" % name)
+        if name in ("random", "uniform", "choices", "seed", "gauss", "betavariate",
+                    "triangular", "getrandbits"):
+            raise HarnessError("RngEnv: random.%s is not modelled (only discrete draws with "
+                               "a finite outcome set can be enumerated)" % name)
         return getattr(_random, name)
 
 
